@@ -137,4 +137,29 @@ class C06(Prop):
                    "defined names are compared as (scope, name) -> refers-to, whichever collection (workbook or sheet) holds them"]
 
 
-PROPS = {"C01": C01(), "C05": C05(), "C06": C06(), "C20": C20(), "C19": C19(), "C17": C17(), "C18": C18()}
+class C02(Prop):
+    cmd = "c02"
+    level = "exploration"
+    cases = {"quick": 400, "thorough": 10000}
+    rule = ("generated workbooks combining the C01 cell generator, random styles on cells/rows/columns, the C06 annotation generator, "
+            "tables and an optional macro payload, saved with the standard or light writer, plus every non-empty corpus file re-saved by "
+            "the library; non-trivial = more than 8 dump entries; distinct by hash of the pre-save dump")
+    assumptions = ["oracle: monitors/xlsx_validate.py (OPC + SpreadsheetML constraints named in the property) and monitors/xlsx_decode.py (zipfile + expat), compared with the pre-save public-getter dump",
+                   "formulas of shared-formula children in corpus re-saves are not compared here (C03 compares the reader's expansion)",
+                   "ST_Xstring _xHHHH_ escapes are decoded by the independent reader, as the standard prescribes"]
+
+    def post(self, v, res, out, tier, seed):
+        sys.path.insert(0, os.path.join(vlib.VERIF, "monitors"))
+        import c02_check
+        n, totals, groups = c02_check.check(out)
+        v.observations += sum(totals.values())
+        for k, val in totals.items():
+            v.counters["decoded." + k] = val
+        v.counters["files_checked"] = n
+        if n == 0:
+            raise vlib.Inconclusive("no file was produced")
+        for (sig, feats), (cnt, exs) in groups.items():
+            v.add_divergence(sig, list(feats), cnt, exs)
+
+
+PROPS = {"C02": C02(), "C01": C01(), "C05": C05(), "C06": C06(), "C20": C20(), "C19": C19(), "C17": C17(), "C18": C18()}
